@@ -15,8 +15,8 @@ type Reach struct {
 }
 
 // reach computes the module functions reachable from entries:
-//   - call-graph edges (quick: CHA over the module-only program; thorough: VTA over the whole program,
-//     traversing library functions too so that callbacks invoked by libraries are found),
+//   - call-graph edges out of module functions (quick: CHA over the module-only program; thorough: VTA over the
+//     whole program, which resolves interface and function-value calls more precisely),
 //   - plus every function value (closure or named function) referenced in a reachable module function:
 //     taking its address in reachable code is treated as calling it (sound over-approximation that makes
 //     closures passed to bbolt.View, sort.Slice, strings.Map, Walk, defer … reachable in both tiers).
@@ -45,7 +45,12 @@ func (w *World) reach(entries ...*ssa.Function) *Reach {
 		if inMod && f.Blocks != nil {
 			r.Funcs[f] = true
 		}
-		if !inMod && !w.Whole {
+		if !inMod {
+			// Library functions are not traversed, in either tier: a whole-program traversal (tried with VTA) drags in
+			// unrelated module callbacks through shared library wrappers (every func(*bbolt.Tx) error becomes a callee of
+			// DB.View) and turns into false alarms. Callbacks handed to libraries are covered by the address-taken rule
+			// below; methods that libraries invoke through interfaces (database/sql driver methods) are listed as entry
+			// points by the rules that need them.
 			continue
 		}
 		if n := w.CG.Nodes[f]; n != nil {
